@@ -38,7 +38,7 @@ RULE = (
     "(workload digest, fault plan); non-trivial = the plan's fault actually fired or it is the crash-point run with >= 3 effects"
 )
 ASSUMPTIONS = [
-    "crash model is kill -9: what a fresh descriptor reads at a boundary is what survives (no power-loss reordering; the code has no fsync and the statement says 'the process dying')",
+    "crash model is kill -9: what a fresh descriptor reads at a boundary is what survives (no power-loss reordering; the code has no fsync and the statement says 'the process dying'); the equivalence is cross-checked on sampled boundaries of serial single-file saves by forking a child that really dies (os._exit) at the boundary",
     "cleanup effects (remove, rmdir) are never failed: a file system that refuses deletion makes leftovers unavoidable",
     "'complete new bytes' = bytes a fault-free serial save of the same workload produces in a sibling directory",
     "parallel runs: effect order depends on the schedule, so (schedule seed, k) pairs are enumerated for one schedule per workload",
@@ -170,6 +170,7 @@ def gen_case(run_seed: int, tier: str, index: int = 0) -> dict:
         "sim": sim,
         "schedule": None,
         "plan": None,  # None = enumerate; otherwise one explicit fault plan
+        "crash_fork": (4 if tier == "thorough" else (2 if index % 8 == 0 else 0)),  # real process deaths at sampled boundaries
     }
 
 
@@ -212,9 +213,13 @@ def _pre_state(root: str) -> dict:
     return out
 
 
-def exec_once(case: dict, plan: dict | None, ref_new: bytes | None) -> dict:
-    """One execution with one fault plan.  Returns dict(violation, effects, fired, outcome, ...)."""
-    root = workload.new_scratch("c08")
+def exec_once(case: dict, plan: dict | None, ref_new: bytes | None, *, root: str | None = None, crash_at: int | None = None) -> dict:
+    """One execution with one fault plan.  Returns dict(violation, effects, fired, outcome, ...).
+
+    With ``crash_at=k`` (used in a forked child only) the process dies with os._exit right at boundary k.
+    """
+    keep_root = root is not None
+    root = root or workload.new_scratch("c08")
     out = {"violation": None, "error": None, "effects": [], "fired": [], "outcome": None, "steps": 0, "schedule_digest": None}
     try:
         case = copy.deepcopy(case)
@@ -246,6 +251,8 @@ def exec_once(case: dict, plan: dict | None, ref_new: bytes | None) -> dict:
         state = {"seen_new": False, "viol": None, "boundaries": 0}
 
         def on_boundary(k: int, kind: str, rel: str) -> None:
+            if crash_at is not None and k == crash_at:
+                os._exit(17)  # the process dies between effect k-1 and k: nothing held only in memory survives
             state["boundaries"] += 1
             if sharded or old is None or state["viol"] is not None:
                 return
@@ -396,7 +403,45 @@ def exec_once(case: dict, plan: dict | None, ref_new: bytes | None) -> dict:
         out["error"] = f"SEAM-LOST: {e}"
         return out
     finally:
-        workload.rm_scratch(root)
+        if not keep_root:
+            workload.rm_scratch(root)
+
+
+def crash_crosscheck(case: dict, n_effects: int, ref_new: bytes | None, rng, samples: int, inc) -> dict | None:
+    """Validate the in-run crash oracle with real process deaths: fork, die at boundary k, inspect from the parent."""
+    options = case["options"]
+    if (options.get("max_workers") or 1) > 1 or options.get("max_shard_size_bytes") is not None:
+        return None
+    ks = sorted(set(rng.randrange(n_effects + 1) for _ in range(samples)))
+    for k in ks:
+        root = workload.new_scratch("c08crash")
+        probe = workload.new_scratch("c08probe")
+        try:
+            # what the destination held before: same deterministic world, built by the parent
+            w0 = workload.World(copy.deepcopy(case), probe, sched=None, with_faults=False)
+            old = fsseam.fresh_read(os.path.join(w0.base, options["dest"]))
+            del w0
+            pid = os.fork()
+            if pid == 0:
+                try:
+                    exec_once(case, None, ref_new, root=root, crash_at=k)
+                finally:
+                    os._exit(0)
+            _pid, status = os.waitpid(pid, 0)
+            died = os.WIFEXITED(status) and os.WEXITSTATUS(status) == 17
+            inc("crash_crosscheck_forks")
+            if died:
+                inc("crash_crosscheck_process_died_at_boundary")
+            if old is None:
+                continue
+            cur = fsseam.fresh_read(os.path.join(root, "m", options["dest"]))
+            if cur != old and not (ref_new is not None and cur == ref_new):
+                what = "missing" if cur is None else f"{len(cur)} bytes"
+                return {"clause": "crash-process-death", "detail": f"the process was killed at boundary {k} of {n_effects}; the destination afterwards holds {what}: neither the previous ({len(old)}) nor the complete new bytes", "k": k}
+        finally:
+            workload.rm_scratch(root)
+            workload.rm_scratch(probe)
+    return None
 
 
 def _reference(case: dict):
@@ -496,6 +541,15 @@ def run_case(case: dict) -> dict:
             res["violation"] = dry["violation"]
             return res
         rng = Streams(case["run_seed"]).rng("faults-plans")
+        if case.get("crash_fork"):
+            cv = crash_crosscheck(case, len(dry["effects"]), ref_new, Streams(case["run_seed"]).rng("crash-fork"), case["crash_fork"], inc)
+            if cv is not None:
+                c = copy.deepcopy(case)
+                c["plan"] = {}
+                res["case"] = c
+                res["violation"] = cv
+                res["violations"].append(cv)
+                return res
         plans, exhaustive = enumerate_plans(case, dry, rng, 140)
         inc("workloads_exhaustive_single_faults" if exhaustive else "workloads_sampled_faults")
         res["sample"] = {
